@@ -80,3 +80,9 @@ V('C16', 'discard-replaced-only-with-waiters', 'edb/server/connpool/pool.py', 'e
   '                self._schedule_discard(block, conn)\n                if block.count_waiters():\n                    self._schedule_new_conn(block)\n', 'C16.R6', 'discard-is-replaced')
 V('C16', 'tick-early-exit-inclusive', 'edb/server/connpool/pool.py', 'edb.server.connpool.pool.Pool._tick',
   '        if total_nwaiters < self._max_capacity:', '        if total_nwaiters <= self._max_capacity:', 'C16.R6', 'early-exit-vs-starving')
+V('C16', 'tick-not-armed-for-single-block', F, P + 'Pool._maybe_schedule_tick',
+  '        if not self._nacquires or self._htick is not None:\n', '        if not self._nacquires or len(self._blocks) <= 1 or self._htick is not None:\n', 'C16.R5', 'armed-whenever-outstanding')
+V('C16', 'unsuppress-moved-to-connect-site', F, P + 'Pool._acquire',
+  '        block = self._get_block(dbname)\n        block.suppressed = False\n', '        block = self._get_block(dbname)\n', 'C16.R7', 'unsuppressed-before-wait')
+V('C16', 'neg-tick-guard-split', F, P + 'Pool._maybe_schedule_tick',
+  '        if not self._nacquires or self._htick is not None:\n            return\n', '        if not self._nacquires:\n            return\n        if self._htick is not None:\n            return\n', None)
